@@ -56,6 +56,30 @@ def run(r):
                              "why": "the target interpreter loads the written file to a different code object (first flag: ==, second: same constant kinds)"})
             elif rec.get("xdis_reread_equal") is not True:
                 r.violation({"component": "write_bytecode_file / load_module", "record": rec, "why": "xdis does not read the written file back to the same content"})
+        # the payload writer model (Model.Marsh.dumps with code objects) against what write_bytecode_file wrote: evaluated inside Coq on the
+        # value the reader model reads from the ORIGINAL payload
+        lits, owners = [], []
+        for rec in recs:
+            if "written_payload" in rec and len(rec["orig_payload"]) < 6000:
+                tbl = "[" + "; ".join(f"({b}, {C.blist(s_)})" for b, s_ in rec["float_reprs"]) + "]"
+                lits.append(f"({rec['magic']}, {tbl}, {C.blist(rec['orig_payload'])}, {C.blist(rec['written_payload'])})")
+                owners.append(rec)
+        hdr2 = HEADER + "\nFrom Xdis Require Import Model.Unmarshal Model.UnmarshalObs Model.Marsh Gen.Dispatch Proofs.MarshRoundTrip."
+        chk = ("fun c : Z * list (Z * list Z) * list Z * list Z => let '(m, tbl, orig, written) := c in "
+               "match load (xdis_cfg m) orig with Ok (v, _) => zlist_eqb (dumps (fun b => match zassoc b tbl with Some s => s | None => [] end) (posonly_read (cpy_cfg m)) v) written | Err _ => false end")
+        bad, errs = C.coq_cases(r.wd, "payload", hdr2, "Z * list (Z * list Z) * list Z * list Z", chk, lits, chunk=6)
+        if errs:
+            raise RuntimeError(f"payload cases: {errs[0]}")
+        for b in bad[:2]:
+            ow = owners[b]
+            r.violation({"component": "Model.Marsh.dumps (code objects) vs write_bytecode_file payload", "target": ow["target"], "source": ow["source"],
+                         "orig_payload": ow["orig_payload"][:300], "written_payload": ow["written_payload"][:300],
+                         "why": "the bytes written after the header are not what the writer model (over which C13_payload_* are proved) produces for the loaded code object"},
+                        found_input=False)
+        r.cov["payloads_compared_in_coq"] = len(lits)
+        for rec in recs:
+            for k in ("orig_payload", "written_payload", "float_reprs"):
+                rec.pop(k, None)
         r.cov["roundtrips"] = recs
     except SystemExit:
         raise
@@ -63,5 +87,6 @@ def run(r):
         import traceback
         traceback.print_exc()
         r.violation({"correspondence": "could not be run", "error": repr(e)}, found_input=False, name="C13-correspondence.json")
-    r.cov["explanation"] = ("PARTIAL: the header is proved; that the marshalled payload is loaded by the target Python to an equal code object is decided by execution on the "
-                            "real 2.7 and 3.6-3.10 interpreters only. 'Executing it behaves identically' is taken from code-object equality. 3.11+ is refused by the writer (raises).")
+    r.cov["explanation"] = ("Header and payload are proved for Python 3.0-3.10 targets (payload: CPython's reader model and xdis's own reader return the tree that was written, any nesting). "
+                            "For Python 2 targets (dump_code2) the payload is decided by execution on the real 2.7 only. 'Executing it behaves identically' is taken from code-object "
+                            "equality as judged by the real 2.7 and 3.6-3.10 interpreters. 3.11+ is refused by the writer (raises).")
